@@ -268,15 +268,15 @@ def build_optimized_pattern(choices: list[ChoiceChoice], repeat: str = "") -> st
         match choice:
             case UnicodePropertyRule(expression=RegexExpression(pattern=pattern)):
                 unicode_props.append(pattern)
-            case ChoiceLiteral(value=val, case=ChoiceCase.INSENSITIVE) if (
-                len(val) == 1 and len(val.upper()) == 1 and len(val.lower()) == 1
-            ):
-                # Characters whose case mapping is longer than one character
-                # ("ß".upper() == "SS") fall through to the `(?i:...)` form.
-                char_class_parts.append(val.upper())
-                char_class_parts.append(val.lower())
+            case ChoiceLiteral(value=val, case=ChoiceCase.INSENSITIVE) if len(val) == 1:
+                # Like `CIString`, only the case of ASCII letters is ignored.
+                if val.isascii():
+                    char_class_parts.append(val.upper())
+                    char_class_parts.append(val.lower())
+                else:
+                    char_class_parts.append(val)
             case ChoiceLiteral(value=val, case=ChoiceCase.INSENSITIVE):
-                insensitive_parts.append(f"(?i:{re.escape(val)})")
+                insensitive_parts.append(f"(?ai:{re.escape(val)})")
             case ChoiceLiteral(value=val, case=ChoiceCase.SENSITIVE) if len(val) == 1:
                 char_class_parts.append(val)
             case ChoiceLiteral(value=val, case=ChoiceCase.SENSITIVE):
